@@ -331,6 +331,9 @@ func (o *vfOracle) step(idx int, s *vfStep, calls []vfCall) {
 			l = o.keyOf[c.Source]
 			if l == "" {
 				unknownDeletes = append(unknownDeletes, c)
+				if c.Failed {
+					sawFailure = true // the provider aborts its round after a failed call, whatever it was for
+				}
 				continue
 			}
 		} else {
@@ -418,7 +421,8 @@ func (o *vfOracle) step(idx int, s *vfStep, calls []vfCall) {
 		if !e.Asserted || e.Op == "" || handled[l] {
 			continue
 		}
-		if sawFailure {
+		meant := e.Op == "D" && o.srcKey[l] != "" && strings.HasSuffix(vfPickDelete(unknownDeletes, o.srcKey[l]).Source, o.srcKey[l])
+		if sawFailure && !meant {
 			// the provider aborted this round after the failed call; the change stays pending
 			o.dirty[l] = true
 			o.stat.add("expected_calls_skipped_after_injected_failure", 1)
@@ -438,7 +442,7 @@ func (o *vfOracle) step(idx int, s *vfStep, calls []vfCall) {
 			obs = "no call for this source; deletes for unknown sources: " + fmt.Sprint(unknownDeletes)
 		}
 		o.addMismatch(idx, s, vfMismatch{Kind: "missing-call", Source: l, State: st.String(), Expected: e.String(), Observed: obs, exp: e, st: st,
-			call: vfFirst(unknownDeletes)})
+			call: vfPickDelete(unknownDeletes, o.srcKey[l])})
 	}
 	if len(unknownDeletes) > 0 {
 		attributed := false
@@ -473,7 +477,14 @@ func (o *vfOracle) step(idx int, s *vfStep, calls []vfCall) {
 	o.trace = append(o.trace, tr)
 }
 
-func vfFirst(c []vfCall) vfCall {
+// vfPickDelete returns, of the deletes whose key is unknown, the one that most likely was meant for the
+// source created under key (its Source ends with key), else the first one.
+func vfPickDelete(c []vfCall, key string) vfCall {
+	for _, d := range c {
+		if key != "" && strings.HasSuffix(d.Source, key) {
+			return d
+		}
+	}
 	if len(c) > 0 {
 		return c[0]
 	}
